@@ -1,10 +1,13 @@
 import Rbp.Proofs.Stats
 import Rbp.Proofs.RunSpec
+import Rbp.Proofs.F64
 import Rbp.Generated.Consts
 /-!
 # C15 — every simplestats figure equals an independent recomputation over the range
 Integer figures are proved equal to closed expressions over the delivered block list; means are exact rationals
-`numerator / count` in the model (float rendering is not modelled: the check compares within half a unit of the printed precision).
+`numerator / count` in the model; the printed text of every floating-point figure is modelled exactly (`Rbp/Model/F64.lean`:
+correctly rounded binary64 conversion, division and multiplication, `{:.k}` rounding half-to-even of the exact binary value) and
+proved to be within half a unit of the last printed digit plus at most four rounding errors of 2^-53 of the exact quotient.
 -/
 namespace Rbp.Props.C15
 open CB
@@ -89,6 +92,59 @@ theorem simplestats_run_spec (o : Run.Opts) (key : Option W.Bytes) (kvs : List (
     (by simp only [Run.callbackPanics, hcb]; exact hnp)
   refine ⟨h0, ?_⟩
   rw [ho]; simp only [Run.callbackOut, hcb]
+
+/-! ## the floating-point figures, as printed -/
+
+/-- the figures of the report are these functions of the integer accumulators (the text the check compares character for
+    character with the real report) -/
+theorem figures_of_accumulators (s : Stats) :
+    figureLines s =
+      [s!"f_fees={F64.coins s.fees}", s!"f_volume={F64.coins s.volume}", s!"f_bigval={F64.coins s.bigVal.1}",
+       s!"f_avg_size={F64.meanOver (s.sizes.foldl (·+·) 0) s.sizes.length 1024}",
+       s!"f_avg_time={F64.meanOver (s.gaps.foldl (·+·) 0) s.gaps.length 60}",
+       s!"f_avg_txs={F64.ratio s.txs s.blocks}", s!"f_avg_ins={F64.ratio s.ins s.txs}", s!"f_avg_outs={F64.ratio s.outs s.txs}",
+       s!"f_avg_value={F64.valuePerOutput s.volume s.outs}"] ++
+      s.types.map fun (n, c, _, _) => s!"share {n} {F64.share c s.outs}" := rfl
+
+/-- **binary64 operations round to nearest.**  For every positive fraction `n / d` (the exact result of a conversion, a
+    division or a multiplication of non-negative doubles) the model's result is a finite double whose value differs from
+    `n / d` by at most `(n / d) / 2^53`; the 53-bit significand is chosen by `rhe`: a nearest integer, the even one on a tie -/
+theorem float_round_to_nearest (n d : Nat) (hn : 0 < n) (hd : 0 < d) :
+    ∃ N D, F64.rn n d = .fin N D ∧ 0 < D ∧
+      (N : Rat) / D ≤ (n : Rat) / d + (n : Rat) / d / 2 ^ 53 ∧ (n : Rat) / d ≤ (N : Rat) / D + (n : Rat) / d / 2 ^ 53 :=
+  F64.rn_close n d hn hd
+
+theorem float_ties_to_even (a b : Nat) (hb : 0 < b) :
+    (2 * a ≤ (2 * F64.rhe a b + 1) * b ∧ 2 * F64.rhe a b * b ≤ 2 * a + b) ∧ (2 * (a % b) = b → F64.rhe a b % 2 = 0) :=
+  ⟨F64.rhe_near a b hb, F64.rhe_tie_even a b⟩
+
+/-- **`{:.k}` prints the nearest k-digit decimal of the exact binary value** -/
+theorem printed_is_nearest_decimal (k N D : Nat) (hD : 0 < D) :
+    ((F64.digits k (.fin N D) : Nat) : Rat) / 10 ^ k ≤ (N : Rat) / D + 1 / (2 * 10 ^ k) ∧
+    (N : Rat) / D ≤ ((F64.digits k (.fin N D) : Nat) : Rat) / 10 ^ k + 1 / (2 * 10 ^ k) :=
+  F64.fmt_close k N D hD
+
+/-- **each printed mean equals its exact definition up to rounding.**  For accumulators below 2^53 (9·10^15; conversions
+    are then exact) and non-empty denominators, the number printed for each floating-point figure — `shown k v`, the digits
+    of `fmt k v` read as a decimal — satisfies `|shown − E| ≤ 1/(2·10^k) + K·E/2^53` where `E` is the exact rational the
+    property defines (`a/b`, `sum/len/c`, `x·10^-8`, `count/outs·100`, `vol/outs·10^-8`) and `K ≤ 4` counts the correctly
+    rounded operations in the code's expression (+1 for the inexact literal `1E-8`) -/
+theorem printed_figures_close :
+    (∀ a b : Nat, a < 2 ^ 53 → 0 < b → b < 2 ^ 53 →
+      ∃ v, v.Fin ∧ F64.ratio a b = F64.fmt 2 v ∧ F64.Shows 2 1 v ((a : Rat) / b)) ∧
+    (∀ sum len c : Nat, sum < 2 ^ 53 → 0 < len → len < 2 ^ 53 → 0 < c → c < 2 ^ 53 →
+      ∃ v, v.Fin ∧ F64.meanOver sum len c = F64.fmt 2 v ∧ F64.Shows 2 3 v ((sum : Rat) / len / c)) ∧
+    (∀ x : Nat, x < 2 ^ 53 → ∃ v, v.Fin ∧ F64.coins x = F64.fmt 8 v ∧ F64.Shows 8 3 v ((x : Rat) * (1 / 10 ^ 8))) ∧
+    (∀ count outs : Nat, count < 2 ^ 53 → 0 < outs → outs < 2 ^ 53 →
+      ∃ v, v.Fin ∧ F64.share count outs = F64.fmt 2 v ∧ F64.Shows 2 3 v ((count : Rat) / outs * 100)) ∧
+    (∀ vol outs : Nat, vol < 2 ^ 53 → 0 < outs → outs < 2 ^ 53 →
+      ∃ v, v.Fin ∧ F64.valuePerOutput vol outs = F64.fmt 2 v ∧ F64.Shows 2 4 v ((vol : Rat) / outs * (1 / 10 ^ 8))) :=
+  ⟨F64.ratio_shows, F64.meanOver_shows, F64.coins_shows, F64.share_shows, F64.valuePerOutput_shows⟩
+
+/-- non-vacuity / tests of the float model on literals: 1/8 and 3/8 print as ties to even, 1e-8 is inexact, 0/0 is NaN -/
+example : F64.ratio 1 8 = "0.12" ∧ F64.ratio 3 8 = "0.38" ∧ F64.ratio 0 0 = "NaN" ∧ F64.ratio 5 0 = "inf" ∧
+    F64.coins 18446744073709551615 = "184467440737.09552002" ∧ F64.share 3 7 = "42.86" := by
+  refine ⟨?_, ?_, ?_, ?_, ?_, ?_⟩ <;> simp +decide [F64.ratio, F64.coins, F64.share, F64.fmt, F64.div, F64.mul, F64.ofNat, F64.rn, F64.c1em8, F64.upN, F64.downN, F64.rhe, F64.padLeft]
 
 /-- non-vacuity: sizes whose sum exceeds 2^32 are summed exactly -/
 example : ([0x90000000, 0x90000000, 0x90000000] : List Nat).sum = 7247757312 ∧ 7247757312 > 2^32 := by decide
